@@ -1,6 +1,6 @@
 from pyvc.contract import contract, class_model
 
-class_model("HedSchema", {"_namespace": "Str"})
+class_model("HedSchema", {"_namespace": "Str", "tags": "Opaque"})
 class_model("TagEntry", {"takes_value_child_entry": "Opt[TagEntry]", "name": "Str"})
 
 # the tag section as an abstract view: case-folded form -> entry.  Trusted: that the loaders register every suffix
@@ -9,9 +9,19 @@ contract("C03.get_tag_entry", file="hed/schema/hed_schema.py", func="HedSchema._
          params={"self": "HedSchema", "name": "Str", "key_class": "Opaque"}, returns="Opt[TagEntry]", enc="native",
          trusted=True, ensures={"view": "result == tag_view(self, name)"})
 
+# C03/C01 "permitted extensions": an extension term that is itself a schema term is an error (TAG_EXTENSION_INVALID), for EVERY term
 contract("C03.validate_remaining_terms", file="hed/schema/hed_schema.py", func="HedSchema._validate_remaining_terms",
          params={"self": "HedSchema", "tag": "HedTag", "working_tag": "Str", "prefix_tag_adj": "Int", "current_slash_index": "Int"},
-         returns=None, enc="native", trusted=True, raises={"_TagIdentifyError": "True"})
+         returns=None, enc="native", also=["C01"],
+         requires=["-1 <= current_slash_index < len(working_tag)", "0 <= prefix_tag_adj",
+                   "prefix_tag_adj + len(working_tag) <= len(tag.tag)"],
+         lets={"rest": "working_tag[current_slash_index + 1:]"},
+         raises={"_TagIdentifyError": "any_in(working_tag[current_slash_index + 1:].split('/'), lambda n: tag_view(self, n) is not None)"},
+         ensures={"C03.extension.no_term_is_a_schema_term": "all_in(rest.split('/'), lambda n: tag_view(self, n) is None)"},
+         loops={0: {"invariant": [
+             "all(tag_view(self, child_names[k]) is None for k in range(_n))",
+             "word_start_index == current_slash_index + 1 + prefix_tag_adj + split_off(working_tag[current_slash_index + 1:], '/', _n)",
+         ]}})
 
 # C03: left-to-right walk to the deepest known node
 contract("C03.find_tag_subfunction",
